@@ -257,8 +257,7 @@ class Run:
     def restart(self, how):
         """The node is stopped and started again: every block accepted so far is written to a fresh block store (in arrival
         order, `how[0]` blocks per flush), the store is reopened and the chain state is rebuilt from it by the start-up code.
-        The history then continues on the REBUILT state; the reference ledger is unaffected.  Skipped when two stored blocks
-        share a transaction id (the recorded store finding C08-F1 would leak in) and on fabricated deep bases."""
+        The history then continues on the REBUILT state; the reference ledger is unaffected.  Skipped on fabricated deep bases."""
         import os
         from skepticoin import blockstore as BS
         from skepticoin.scripts import utils as U
@@ -266,13 +265,9 @@ class Run:
         if self.case.get("deep") or isinstance(self.cs, NodeState):
             return
         blocks = [led.nodes[i].blk for i in led.order[1:]]
-        seen = set()
-        for x in [led.genesis.blk] + blocks:
-            for t in x.txs:
-                if t.id() in seen:
-                    self.stat("restart_skipped_shared_transaction_id")
-                    return
-                seen.add(t.id())
+        txids = [t.id() for x in [led.genesis.blk] + blocks for t in x.txs]
+        if len(set(txids)) != len(txids):
+            self.stat("restarts_with_a_transaction_id_in_two_blocks")      # (was skipped while store finding C08-F1 was open)
         d = env.fresh_subdir("restart")
         path = os.path.join(d, "chain.db")
         old = BS.DefaultBlockStore.instance
